@@ -1,3 +1,191 @@
-import CoapVerif.Model.Parse
+import CoapVerif.Lemmas.Parse
+/-
+C03 — the decoder accepts exactly the well-formed messages and reports what is on the wire.
+
+  S = Coap.Spec.decode      (RFC 7252 §3, RFC 8323 §3-5, RFC 8974 §2; CoapVerif/Spec/Codec.lean)
+  M = Coap.M.parse          (transcription of coap_pdu_parse & callees; CoapVerif/Model/Parse.lean)
+  M's length table = Coap.Generated.lenGroups, regenerated from /repo on every run (T1).
+
+Property theorems only; helper lemmas live in CoapVerif/Lemmas/Parse.lean.
+-/
 namespace Coap.C03
+open Coap Coap.M
+
+/-- (T1) the per-option length limits libcoap enforces are the RFCs' — row by row, for every
+message code, every option number and every length the wire format can express. -/
+theorem optLenTable_matches_rfc : Generated.lenGroups = Spec.lenGroups := lenGroups_eq
+
+/-- (P1) M = S: for every framing and **every** byte string, libcoap's decoding algorithm accepts
+iff the RFC grammar does, and then yields the same type, code, message id, token, options, payload.
+(`toOption` maps both "return 0" and a read past the message to "not accepted".) -/
+theorem parse_eq_spec (p : Proto) (bs : Bytes) : (M.parse p bs).toOption = Spec.decode p bs := by
+  cases p
+  · exact parse_udp_eq bs
+  · exact parse_tcp_eq bs
+  · exact parse_ws_eq bs
+
+/-- every well-formed string is accepted, with the reference content -/
+theorem every_wellformed_accepted (p : Proto) (bs : Bytes) (m : Msg) (h : Spec.decode p bs = some m) :
+    M.parse p bs = R.ok m := by
+  have := parse_eq_spec p bs
+  rw [h] at this
+  cases hp : M.parse p bs with
+  | ok m' => rw [hp] at this; simp [R.toOption] at this; rw [this]
+  | rej => rw [hp] at this; simp [R.toOption] at this
+  | oob => rw [hp] at this; simp [R.toOption] at this
+
+/-- only well-formed strings are accepted -/
+theorem accepted_only_if_wellformed (p : Proto) (bs : Bytes) (m : Msg) (h : M.parse p bs = R.ok m) :
+    Spec.decode p bs = some m := by
+  rw [← parse_eq_spec, h]; rfl
+
+/-- the option loop (and therefore the whole decoder) never reads outside the message it was given -/
+theorem walk_never_oob (code fuel : Nat) (bs : Bytes) (maxOpt : Nat) :
+    walk code fuel bs maxOpt ≠ R.oob := by
+  induction fuel generalizing bs maxOpt with
+  | zero => simp [walk]
+  | succ fuel ih =>
+    rcases bs with _ | ⟨b, r0⟩
+    · simp [walk]
+    · by_cases hff : b = 0xFF
+      · simp [walk, hff]
+      · rw [walk_succ_cons _ _ _ _ _ hff]
+        cases hO : optSpec b r0 with
+        | oob => exact absurd hO (optSpec_ne_oob b r0)
+        | rej => simp
+        | ok p =>
+          simp only []
+          split
+          · simp
+          · have := ih (List.drop p.size (b :: r0)) ((maxOpt + p.delta) % 65536)
+            cases hw : walk code fuel (List.drop p.size (b :: r0)) ((maxOpt + p.delta) % 65536) with
+            | oob => exact absurd hw this
+            | rej => simp
+            | ok v => simp
+
+/-! ### the clauses named in the property statement (about S, hence by `parse_eq_spec` about M) -/
+
+/-- a reserved nibble (delta 15 other than the payload marker, or length 15) is always rejected -/
+theorem reserved_nibble_rejected (code fuel prev : Nat) (b : UInt8) (r : Bytes) (hm : b ≠ 0xFF)
+    (hr : b.toNat / 16 = 15 ∨ b.toNat % 16 = 15) :
+    Spec.opts code (fuel + 1) prev (b :: r) = none := by
+  simp only [Spec.opts, hm, if_false]
+  rcases hr with h | h
+  · simp [h, Spec.ext]
+  · cases hE : Spec.ext (b.toNat / 16) r with
+    | none => rfl
+    | some p => simp [h, Spec.ext]
+
+/-- an option whose number would exceed 65535 is always rejected -/
+theorem number_above_65535_rejected (code fuel prev : Nat) (b : UInt8) (r r1 : Bytes) (d : Nat)
+    (hm : b ≠ 0xFF) (hE : Spec.ext (b.toNat / 16) r = some (d, r1)) (hbig : prev + d > 65535) :
+    Spec.opts code (fuel + 1) prev (b :: r) = none := by
+  have : ¬ (prev + d ≤ 65535) := by omega
+  simp only [Spec.opts, hm, if_false, hE]
+  split
+  · rfl
+  · simp [this]
+
+/-- an option value that runs past the end of the message is always rejected -/
+theorem truncated_value_rejected (code fuel prev : Nat) (b : UInt8) (r r1 r2 : Bytes) (d l : Nat)
+    (hm : b ≠ 0xFF) (hE : Spec.ext (b.toNat / 16) r = some (d, r1))
+    (hL : Spec.ext (b.toNat % 16) r1 = some (l, r2)) (hshort : r2.length < l) :
+    Spec.opts code (fuel + 1) prev (b :: r) = none := by
+  have : ¬ (l ≤ r2.length) := by omega
+  simp [Spec.opts, hm, hE, hL, this]
+
+/-- an extension byte that is missing is a rejection too (truncation inside the option header) -/
+theorem truncated_header_rejected (code fuel prev : Nat) (b : UInt8) (r : Bytes) (hm : b ≠ 0xFF)
+    (h : Spec.ext (b.toNat / 16) r = none ∨
+         ∃ d r1, Spec.ext (b.toNat / 16) r = some (d, r1) ∧ Spec.ext (b.toNat % 16) r1 = none) :
+    Spec.opts code (fuel + 1) prev (b :: r) = none := by
+  rcases h with h | ⟨d, r1, h1, h2⟩
+  · simp [Spec.opts, hm, h]
+  · simp [Spec.opts, hm, h1, h2]
+
+/-- a payload marker that is the last byte is always rejected -/
+theorem marker_without_payload_rejected (type code mid tkl : Nat) (rest : Bytes) (os : List (Nat × Bytes))
+    (n : Nat) (r : Bytes) (m : UInt8) (hc : code ≠ 0) (hE : Spec.ext tkl rest = some (n, r))
+    (hO : Spec.opts code (rest.length + 1) 0 (r.drop n) = some (os, [m])) :
+    Spec.body type code mid tkl rest = none := by
+  simp only [Spec.body, hE, hc, if_false, hO, Spec.finish]
+  split <;> simp
+
+/-- an Empty message (code 0.00) with a token, options or payload is always rejected -/
+theorem nonempty_empty_rejected (type mid tkl : Nat) (rest : Bytes) (h : tkl ≠ 0 ∨ rest ≠ []) :
+    Spec.body type 0 mid tkl rest = none := by
+  have : ¬ (tkl = 0 ∧ rest = []) := by
+    intro ⟨h1, h2⟩; rcases h with h | h
+    · exact h h1
+    · exact h h2
+  simp only [Spec.body]
+  split
+  · rfl
+  · split
+    · simp [this]
+    · rfl
+
+/-- the length table is enforced: an option whose value length is outside its row is rejected -/
+theorem bad_length_rejected (code fuel prev : Nat) (b : UInt8) (r r1 r2 : Bytes) (d l : Nat)
+    (hm : b ≠ 0xFF) (hE : Spec.ext (b.toNat / 16) r = some (d, r1))
+    (hL : Spec.ext (b.toNat % 16) r1 = some (l, r2)) (hbad : Spec.optLenOk code (prev + d) l = false) :
+    Spec.opts code (fuel + 1) prev (b :: r) = none := by
+  simp [Spec.opts, hm, hE, hL, hbad]
+
+/-- the accessor walk (`coap_option_next` + `coap_opt_length/value`) over an accepted message
+reports exactly the options the decoder checked -/
+theorem accessors_report_wire (code : Nat) : ∀ (fuel : Nat) (bs : Bytes) (maxOpt : Nat)
+    (os : List (Nat × Bytes)) (rest : Bytes),
+    walk code fuel bs maxOpt = R.ok (true, os, rest) → iter fuel bs maxOpt = R.ok os := by
+  intro fuel
+  induction fuel with
+  | zero => intro bs maxOpt os rest h; simp [walk] at h
+  | succ fuel ih =>
+    intro bs maxOpt os rest h
+    rcases bs with _ | ⟨b, r0⟩
+    · simp [walk] at h; simp [iter, h.1]
+    · by_cases hff : b = 0xFF
+      · simp [walk, hff] at h; simp [iter, hff, h.1]
+      · rw [walk_succ_cons _ _ _ _ _ hff] at h
+        rw [iter_succ_cons _ _ _ _ hff]
+        cases hO : optSpec b r0 with
+        | oob => simp [hO] at h
+        | rej => simp [hO] at h
+        | ok p =>
+          simp only [hO] at h ⊢
+          by_cases hnum : maxOpt + p.delta > 65535
+          · simp [hnum] at h
+          · simp only [hnum, if_false] at h
+            cases hw : walk code fuel (List.drop p.size (b :: r0)) ((maxOpt + p.delta) % 65536) with
+            | oob => simp [hw] at h
+            | rej => simp [hw] at h
+            | ok v =>
+              obtain ⟨g', os', rest'⟩ := v
+              simp only [hw] at h
+              injection h with h
+              simp only [Prod.mk.injEq, Bool.and_eq_true] at h
+              obtain ⟨⟨_, hg'⟩, hos, hrest⟩ := h
+              subst hg'
+              have := ih _ _ os' rest' hw
+              simp only [this]
+              rw [← hos]
+
+/-! ### non-vacuity: concrete strings on both sides of the accept/reject line -/
+
+example : Spec.decode .udp [0x40, 0x01, 0x12, 0x34, 0xb1, 0x61] = some ⟨0, 1, 0x1234, [], [(11, [0x61])], []⟩ := by decide
+example : M.parse .udp [0x40, 0x01, 0x12, 0x34, 0xb1, 0x61] = R.ok ⟨0, 1, 0x1234, [], [(11, [0x61])], []⟩ := by decide
+example : Spec.decode .udp [0x41, 0x45, 0, 1, 0xaa, 0xc1, 0x00, 0xff, 0x68, 0x69] =
+    some ⟨0, 69, 1, [0xaa], [(12, [0])], [0x68, 0x69]⟩ := by decide
+/-- the former defect: a delta of 65548 is rejected, not taken for option 12 -/
+example : M.parse .udp [0x40, 0x01, 0x12, 0x34, 0xe0, 0xfe, 0xff] = R.rej := by decide
+example : Spec.decode .udp [0x40, 0x01, 0x12, 0x34, 0xe0, 0xfe, 0xff] = none := by decide
+/-- option number 65535 is well-formed -/
+example : M.parse .udp [0x60, 0x01, 0, 0, 0xe1, 0xfe, 0xf2, 0x80] = R.ok ⟨2, 1, 0, [], [(65535, [0x80])], []⟩ := by decide
+example : Spec.decode .tcp [0x20, 0x01, 0xb0, 0x00] = some ⟨0, 1, 0, [], [(11, []), (11, [])], []⟩ := by decide
+example : Spec.decode .tcp [0x30, 0x01, 0xb0, 0x00] = none := by decide   -- Len says 3, 2 bytes follow
+example : Spec.decode .udp [0x40, 0x01, 0, 1, 0xff] = none := by decide       -- marker, no payload
+example : Spec.decode .udp [0x41, 0x00, 0, 1, 0xaa] = none := by decide       -- non-empty Empty
+example : Spec.decode .ws [0x0d, 0x01, 0x00, 1, 2, 3, 4, 5, 6, 7, 8, 9, 10, 11, 12, 13] =
+    some ⟨0, 1, 0, [1, 2, 3, 4, 5, 6, 7, 8, 9, 10, 11, 12, 13], [], []⟩ := by decide  -- RFC 8974 token
+
 end Coap.C03
